@@ -43,6 +43,9 @@ def get(name):
   if name.startswith(('shape:', 'hand:')):
     from corpus import sched_designs
     return sched_designs.get(name)
+  if name.startswith('mm:'):
+    from corpus import mismatchgen
+    return mismatchgen.get(name)
   if name.startswith('cyc:'):
     from corpus import cycle_designs
     return cycle_designs.get(name)
@@ -57,6 +60,9 @@ def stable_key(name):
   if name.startswith('gen:'):
     from corpus import exprgen
     return 'gen[' + ' '.join(exprgen.describe(name).split()) + ']'
+  if name.startswith('mm:'):
+    from corpus import mismatchgen
+    return 'mm[' + ' '.join(mismatchgen.describe(name).split()) + ']'
   if name.startswith('shape:'):
     from corpus import sched_designs
     return 'shape[' + sched_designs.describe(name) + ']'
